@@ -1469,6 +1469,21 @@ _dbus_connection_get_next_client_serial (DBusConnection *connection)
   return serial;
 }
 
+#ifdef FREEDESKTOP_DBUS_VERIF
+/* verification hook H4: put the serial counter of a connection at a chosen
+ * (non-zero) value, so that a test can reach the 32-bit wrap of the counter */
+DBUS_PRIVATE_EXPORT void _dbus_verif_connection_set_next_serial (DBusConnection *connection,
+                                                                 dbus_uint32_t   serial);
+void
+_dbus_verif_connection_set_next_serial (DBusConnection *connection,
+                                        dbus_uint32_t   serial)
+{
+  CONNECTION_LOCK (connection);
+  connection->client_serial = serial;
+  CONNECTION_UNLOCK (connection);
+}
+#endif
+
 /**
  * A callback for use with dbus_watch_new() to create a DBusWatch.
  * 
